@@ -371,6 +371,8 @@ def run(tier, seed):
     ck.cover(traces_validated_against_impl=acc, trace_events=nev, trace_states=st["states"],
              binding_selftest="corrupted N(R) and dropped Deliver both rejected")
     threaded_stage(ck, quick, seed)
+    from bind import c05conn
+    c05conn.stage(ck, quick, seed, tlc, PID)
     ck.sample(dict(trace=traces[0]["id"], const=traces[0]["const"], first_events=traces[0]["ev"][:6]))
     ck.sample(dict(mc="LlcpDlc M=4", depth=r.depth, distinct=r.distinct))
     ck.assume("non-threaded binding: application calls use MSG_DONTWAIT and are interleaved with collect()/dispatch() by the harness",
@@ -459,6 +461,18 @@ def classify(tr, line, act, why):
 
 def replay(rep, args):
     r = rep["replay"]
+    if r.get("kind") == "conn":
+        from bind import c05conn
+        tr = c05conn.run_conn(r["seed"], r["listener"])
+        import os
+        cfgp = os.path.join(tlc.OUT, PID, "Trace_LlcpConn_replay.cfg")
+        open(cfgp, "w").write(c05conn.cfg_text(tr["cfg"], r["listener"]))
+        v, _ = tlc.validate_traces("Trace_LlcpConn.tla", cfgp, PID + "_replay", [dict(id=tr["id"], const=tr["const"], ev=tr["ev"])], shards=1)
+        print(v)
+        if v[tr["id"]][0] != "ACCEPT":
+            print("VIOLATION property=%s replay=%s" % (PID, args.replay))
+            return 1
+        return 0
     if r.get("kind") == "threaded":
         from bind import c05t
         st, res = c05t.work((r["seed"],))
